@@ -48,7 +48,7 @@ type call struct {
 }
 
 var callFns = []string{"HashToGroup", "EncodeToGroup", "HashToScalar", "E.Add", "E.Subtract", "E.Set", "E.Equal", "E.Multiply", "E.Decode", "E.DecodeUncompressed",
-	"S.Add", "S.Subtract", "S.Multiply", "S.Set", "S.Equal", "S.LessOrEqual", "S.Pow", "S.CSelect", "S.Decode", "Base", "NewElement", "Identity", "Order", "Random",
+	"S.Add", "S.Subtract", "S.Multiply", "S.Set", "S.Equal", "S.LessOrEqual", "S.Pow", "S.CSelect", "S.Decode", "Base", "NewElement", "Identity", "Order", "Random", "Base.Multiply",
 	"HashToGroup", "HashToScalar", "EncodeToGroup"}
 
 type env struct {
@@ -126,6 +126,8 @@ func (ev *env) run(c call) []byte {
 		return []byte{byte(e.Equal(ei))}
 	case "E.Multiply":
 		return e.Multiply(si).Encode()
+	case "Base.Multiply":
+		return secp256k1.Base().Multiply(si).Encode()
 	case "E.Decode":
 		if err := e.Decode(ev.encE[c.I%len(ev.encE)]); err != nil {
 			return []byte("error:" + err.Error())
@@ -190,10 +192,10 @@ func runC16(c caseC16, o *gen.Obs) error {
 		o.Class("skipped:builder-error")
 		return nil
 	}
-	// sequential reference results
-	want := make([][]byte, len(c.Calls))
-	for i, cl := range c.Calls {
-		want[i] = ev.run(cl)
+	// The concurrent phase runs FIRST and the sequential reference results are computed afterwards, so that whatever the
+	// package initialises lazily is initialised under concurrency (a sequential warm-up would hide an unsynchronised
+	// first use). Building the environment only decodes, encodes and adds.
+	for _, cl := range c.Calls {
 		o.Class("call:" + cl.Fn)
 	}
 	hashers := 0
@@ -222,6 +224,10 @@ func runC16(c caseC16, o *gen.Obs) error {
 	}
 	close(start)
 	wg.Wait()
+	want := make([][]byte, len(c.Calls))
+	for i, cl := range c.Calls {
+		want[i] = ev.run(cl)
+	}
 	for g, order := range c.Order {
 		for _, idx := range order {
 			i := idx % len(c.Calls)
@@ -290,7 +296,7 @@ var c16 = gen.Register(&gen.Check[caseC16]{
 		}
 		all := caseC16{E: []pt.Spec{g, {Base: pt.Base{Kind: "kg", K: 3}, Steps: []pt.Step{{Op: "dblsub"}}}}, S: []string{"05", gen.H(new(bigInt).Sub(ref.N, one))}, Msg: "00", Dst: hex.EncodeToString(bytes.Repeat([]byte{'x'}, 32)), DstLay: gen.Layout{Post: 1}}
 		var ord []int
-		for i, fn := range callFns[:24] {
+		for i, fn := range callFns[:25] {
 			all.Calls = append(all.Calls, call{Fn: fn, I: i % 2, J: (i + 1) % 2, Cond: uint64(i % 3)})
 			ord = append(ord, i)
 		}
@@ -323,6 +329,13 @@ func TestC16Concurrent(t *testing.T) {
 				_ = os.Remove(currentCasePath)
 			}
 		})
+	}
+	// cold start: the very first use of the package's functions in this process happens concurrently
+	fixed := c16.Fixed()
+	cold := fixed[len(fixed)-1]
+	cold.Order = append(cold.Order, cold.Order...)
+	if err := runC16(cold, &gen.Obs{}); err != nil {
+		t.Fatalf("cold start: %v", err)
 	}
 	c16.Execute(t)
 }
